@@ -239,7 +239,8 @@ def text_object(draw, N, allow_bad):
     if draw(st.integers(0, 9)) > 0:
         ops.append(draw(N["tf"]))
     body = list(draw(N["textbody"]))
-    if allow_bad and draw(st.integers(0, 3)) == 0:
+    nbad = draw(st.sampled_from([0, 0, 0, 1, 1, 2])) if allow_bad else 0
+    for _bad in range(nbad):
         pos = draw(st.integers(0, len(body)))
         kind = draw(st.sampled_from(["Td", "Tc", "Tw", "Tz", "TL", "Ts", "Tm", "rg", "Tj", "TD"]))
         missing = draw(st.booleans())
@@ -263,7 +264,12 @@ def text_object(draw, N, allow_bad):
             bad = [kind.encode()] if missing else [bo if bo != b"(xy)" else b"/Q", kind.encode()]
             v = draw(N["tz"] if kind == "Tz" else N["tc"])
             resync = (kind, v)
-        ins = [("bad", bad)] + ([resync] if resync else []) + extra
+        if missing:
+            # an operator short of operands is skipped altogether (it only consumes what is there): nothing to
+            # re-establish, and whatever it left behind must not leak into a later short operator
+            ins = [("bad", bad)]
+        else:
+            ins = [("bad", bad)] + ([resync] if resync else []) + extra
         body[pos:pos] = ins
     return ("BT", ops + body)
 
